@@ -34,7 +34,7 @@ func runC20(c *Ctx) {
 	for _, s := range []site{{"rt/middleware.Spec", "spec"}, {"rt/middleware.serveUI", "ui"}} {
 		outer := p.Fn(s.outer)
 		f := c.theHandlerClosure(outer)
-		rw, r := f.Params[0], f.Params[1]
+		rw, r := hRW(f), hReq(f)
 		// the interception fact: path.Clean(r.URL.Path) == pth
 		isClean := func(v ssa.Value) bool {
 			call := asCall(v)
